@@ -61,13 +61,13 @@ def _as_int(v: float) -> int:
     return int(round(v)) if math.isfinite(v) and abs(v - round(v)) < 1e-6 else -1
 
 
-def observed_eval(obs_v: dict, obs_f: dict) -> dict:
+def observed_eval(obs_v: dict, obs_f: dict, xname: str = "x") -> dict:
     """What the reported tables say about a row, in the specification's terms: a NaN placeholder, or the plain
     parameter k and the effective inflow recovered from the fluxes at the first reported point."""
     if all(math.isnan(x) for r in obs_v["data"] for x in r):
         return {"t": "nan"}
     try:
-        x = obs_v["data"][0][obs_v["cols"].index("x")]
+        x = obs_v["data"][0][obs_v["cols"].index(xname)]
         k_obs = obs_f["data"][0][obs_f["cols"].index("v_out")] / x
         ke_obs = obs_f["data"][0][obs_f["cols"].index("v_in")]
     except (ValueError, ZeroDivisionError, IndexError):
@@ -197,7 +197,8 @@ def _run_case(sc: dict) -> dict:
     if ref["failed"]:
         raise MachineryError(f"reference run of the unmodified model failed: {ref}")
     inners = sk.INNER if kind == "mc.scan_steady_state" else [None]
-    evals = {i: observed_eval(vs[i - 1], fs[i - 1]) for i in range(1, n + 1)} if kind in EVAL_KINDS else {}
+    xname = sk.real(sc, "x")
+    evals = {i: observed_eval(vs[i - 1], fs[i - 1], xname) for i in range(1, n + 1)} if kind in EVAL_KINDS else {}
     for i in range(1, n + 1):
         obs_v, obs_f = vs[i - 1], fs[i - 1]
         row_bad = False
@@ -244,7 +245,7 @@ def _run_case(sc: dict) -> dict:
             times = [math.inf] if kind in STEADY else exp_rows_v[j]["index"]
             cf = sk.closed_form(sc, i, times, inner=inner)
             lo = j * len(times)
-            xcol, vo, vi = obs_v["cols"].index("x"), obs_f["cols"].index("v_out"), obs_f["cols"].index("v_in")
+            xcol, vo, vi = obs_v["cols"].index(xname), obs_f["cols"].index("v_out"), obs_f["cols"].index("v_in")
             bounds = {0.0} | {sum(d for d, _ in sk.PROTOCOL[:s + 1]) for s in range(len(sk.PROTOCOL))}
             for r, t in enumerate(times):
                 ox, ovo, ovi = obs_v["data"][lo + r][xcol], obs_f["data"][lo + r][vo], obs_f["data"][lo + r][vi]
